@@ -139,6 +139,69 @@ def encodeAll (c : Cfg) (crc : Crc) : Nat → List (List Nat) → List Nat
   | _, [] => []
   | prev, p :: ps => let (b, pc) := encodeRecord c crc prev p; b ++ encodeAll c crc pc ps
 
+/-! ### read-only segments: the index file (`ReadIndex`, `newReadOnlySegment`, `readOnlySegment.Read`) -/
+
+/-- facts read from the code: `ReadIndex` (v2) looks at the length of the file before it reads the checksum;
+    `newReadOnlySegment` refuses an index without entries -/
+structure ROCfg where
+  lenGuard : Bool
+  emptyGuard : Bool
+  deriving Repr, DecidableEq
+
+def Res.cast {α β : Type} (r : Res α) (dflt : Res β) : Res β :=
+  match r with
+  | .ok _ => dflt
+  | .errOutOfBounds => .errOutOfBounds
+  | .errEmptyPayload => .errEmptyPayload
+  | .errDataCorrupted => .errDataCorrupted
+  | .panic => .panic
+
+/-- `ReadIndex`: v1 returns the file as it is; v2 compares the checksum in the first four bytes with the
+    checksum of the rest -/
+def readIndexFile (c : Cfg) (ro : ROCfg) (crc : Crc) (file : List Nat) : Res (List Nat) :=
+  if !c.v2 then .ok file
+  else if ro.lenGuard && file.length < 4 then .errDataCorrupted
+  else match readInt file 0 with
+    | none => .panic                       -- ReadInt(indexBuf, 0) on fewer than four bytes
+    | some expected => if expected ≠ crc 0 (file.drop 4) then .errDataCorrupted else .ok (file.drop 4)
+
+/-- the index `RecoverIndex` returns, as the bytes the segment keeps -/
+def indexBytes (idx : List Nat) : List Nat := idx.flatMap putInt
+
+structure ROSeg where
+  idx : List Nat           -- index bytes, four per entry
+  count : Nat
+  lastCrc : Nat
+  deriving Repr, DecidableEq
+
+/-- the tail of `newReadOnlySegment`: the last entry and its checksum -/
+def finishReadOnly (c : Cfg) (ro : ROCfg) (crc : Crc) (idx txn : List Nat) : Res ROSeg :=
+  let n := idx.length / 4
+  if n = 0 then (if ro.emptyGuard then .errDataCorrupted else .panic)   -- fileOffset(idx, base, base-1)
+  else match readInt idx ((n - 1) * 4) with
+    | none => .panic
+    | some fo =>
+      match readHeader c crc txn fo with
+      | .ok h => .ok { idx := idx, count := n, lastCrc := h.payloadCrc }
+      | r => r.cast .panic
+
+/-- `newReadOnlySegment`: the index file is read; a v2 index that fails its checksum is rebuilt from the txn file -/
+def openReadOnly (c : Cfg) (ro : ROCfg) (crc : Crc) (idxFile txn : List Nat) : Res ROSeg :=
+  match readIndexFile c ro crc idxFile with
+  | .ok idx => finishReadOnly c ro crc idx txn
+  | .errDataCorrupted =>
+    match recoverIndex c crc txn 0 none with
+    | .ok r => finishReadOnly c ro crc (indexBytes r.index) txn
+    | r => r.cast .panic
+  | r => r.cast .panic
+
+/-- `readOnlySegment.Read` of the `k`-th entry -/
+def roRead (c : Cfg) (crc : Crc) (s : ROSeg) (txn : List Nat) (k : Nat) : Res (List Nat) :=
+  if k ≥ s.count then .errOutOfBounds
+  else match readInt s.idx (k * 4) with
+    | none => .panic
+    | some fo => readRecord c crc txn fo
+
 /-! ### CRC-32C as used by `server/util/crc` (for the driver; theorems keep the checksum abstract) -/
 
 def crc32cByte (crc : Nat) (b : Nat) : Nat :=
